@@ -236,3 +236,28 @@ Definition spec_exact (angle tol : Q) : option (list (Z * Z)) :=
       | _ => None
       end
   end.
+
+(* ------------------------------------------- 4. front-end allowance, checked *)
+(* The error of the float front end for one input, in radians, evaluated with the
+   rational p standing for pi: distance of rest half turns to the requested
+   angle minus k whole turns, plus what thr (half turns) exceeds tol (radians). *)
+Definition FE_ALLOW : Q := pow2 (-49).
+
+Definition fe_at (angle tol rest thr : Q) (k : Z) (p : Q) : Q :=
+  Qabs (rest * p - (angle - 2 * inject_Z k * p)) +
+  (if Qle_bool (thr * p) tol then 0 else thr * p - tol).
+
+(* hypothesis of C19_radians_checked, decided by computation for each case of the
+   correspondence stream: at both rational bounds of pi *)
+Definition fe_ok (angle tol rest thr : Q) (k : Z) : bool :=
+  Qle_bool (fe_at angle tol rest thr k PI_LO) FE_ALLOW &&
+  Qle_bool (fe_at angle tol rest thr k PI_HI) FE_ALLOW.
+
+(* the number of whole turns the code's result refers to: turns angle, or one
+   more / one less when rounding moved rest across 0 / 2 *)
+Definition fe_turns (angle tol rest thr : Q) : option Z :=
+  let k := turns angle in
+  if fe_ok angle tol rest thr k then Some k
+  else if fe_ok angle tol rest thr (k + 1) then Some (k + 1)%Z
+  else if fe_ok angle tol rest thr (k - 1) then Some (k - 1)%Z
+  else None.
